@@ -43,7 +43,8 @@ CLASSES = ["bad_first_byte", "bad_block_type", "zero_in_ps",
            "lenmax", "ver_plus", "ver_below", "ver_between", "ver_negotiated",
            "ver_zero", "ver_ffff",
            "ge_n", "short_ct", "long_ct", "ct_empty", "ct_eq_n",
-           "ct_n_minus_1", "ct_zero", "ct_one", "ct_all_ff"]
+           "ct_n_minus_1", "ct_zero", "ct_one", "ct_all_ff",
+           "len_prefixed_ct"]
 PUBLIC = ()
 PROBES = [c for c in CLASSES] + ["sslv3", "tls10", "tls11", "tls12", "client_auth", "etm",
                     "no_ems", "client_max_higher"]
@@ -137,6 +138,11 @@ def craft(cls, n, e, k, chver, rng, negver=None):
     elif cls == "long_ct":
         c = pow(int.from_bytes(em(pms()), "big"), e, n)
         return b"\x00" + c.to_bytes(k, "big"), used[0]
+    elif cls == "len_prefixed_ct":
+        # a well-formed ciphertext behind a two-octet length (the TLS
+        # encoding used where the raw SSLv3 one is expected, or used twice)
+        c = pow(int.from_bytes(em(pms()), "big"), e, n)
+        return k.to_bytes(2, "big") + c.to_bytes(k, "big"), used[0]
     elif cls == "ct_empty":
         pms()
         return b"", used[0]
@@ -278,7 +284,8 @@ def run(job, streams=None):
         for c, t in sorted(secret.items()):
             if t != ref:
                 diff = [k for k in ref if ref[k] != t[k]]
-                if c in ("short_ct", "long_ct", "ct_empty"):
+                if c in ("short_ct", "long_ct", "ct_empty",
+                         "len_prefixed_ct"):
                     # the ClientKeyExchange itself has another length
                     diff = [k for k in diff if k != "consumed"]
                 if not diff:
